@@ -15,6 +15,9 @@
      B,<i>          dbus_pending_call_block
      D              dbus_connection_dispatch (one message)
      T,<i>          dbus_pending_call_steal_reply if get_completed
+     BW,<i>,<k>:<target>:<tag>+...[/...]
+                    dbus_pending_call_block (call i) while a helper thread writes the batches (separated by '/') to the
+                    peer's socket, one every 15 ms, as raw pre-marshalled bytes (the helper makes no libdbus call)
      X              peer closes its end (after draining what the client sent)
      L              dbus_connection_close (client)
    Result: per event "<observations>|<per-call state>", joined by ';'.
@@ -23,6 +26,7 @@
 #include <stdarg.h>
 #include <unistd.h>
 #include <signal.h>
+#include <pthread.h>
 
 #define MAXCALLS 16
 #define OUTSZ 16384
@@ -259,6 +263,72 @@ static void ev_peer (const char *kind, const char *target, const char *tagstr)
   dbus_message_unref (m);
 }
 
+/* ---- block while the peer keeps writing ---- */
+#define MAXBATCH 8
+struct batch { unsigned char *buf; size_t len; };
+static struct batch bw[MAXBATCH];
+static int nbw, bw_fd;
+static void *bw_thread (void *arg)
+{
+  int i;
+  for (i = 0; i < nbw; i++)
+    {
+      size_t off = 0;
+      usleep (15000);
+      while (off < bw[i].len)
+        {
+          ssize_t n = write (bw_fd, bw[i].buf + off, bw[i].len - off);
+          if (n <= 0) break;
+          off += (size_t) n;
+        }
+    }
+  return NULL;
+}
+
+static void batch_add (struct batch *b, const char *item)
+{
+  char kind[8], target[32]; unsigned long tag; dbus_uint32_t rs; DBusMessage *m; char *raw = NULL; int len = 0;
+  dbus_uint32_t t32;
+  if (sscanf (item, "%7[^:]:%31[^:]:%lu", kind, target, &tag) != 3) return;
+  if (target[0] == 'c') { int i = atoi (target + 1); if (i < 0 || i >= ncalls) return; rs = calls[i].serial; }
+  else rs = (dbus_uint32_t) strtoul (target + 1, NULL, 10);
+  if (kind[0] == 'r') m = dbus_message_new (DBUS_MESSAGE_TYPE_METHOD_RETURN);
+  else if (kind[0] == 'e') { m = dbus_message_new (DBUS_MESSAGE_TYPE_ERROR); dbus_message_set_error_name (m, "org.x.Err"); }
+  else m = dbus_message_new_signal ("/org/x", "org.x.I", "Sig");
+  if (rs != 0) dbus_message_set_reply_serial (m, rs);
+  else if (kind[0] != 's') { dbus_message_unref (m); return; }
+  t32 = (dbus_uint32_t) tag;
+  dbus_message_append_args (m, DBUS_TYPE_UINT32, &t32, DBUS_TYPE_INVALID);
+  dbus_message_set_serial (m, 0x40000000u + t32);
+  if (dbus_message_marshal (m, &raw, &len))
+    {
+      b->buf = realloc (b->buf, b->len + (size_t) len);
+      memcpy (b->buf + b->len, raw, (size_t) len);
+      b->len += (size_t) len;
+      dbus_free (raw);
+    }
+  dbus_message_unref (m);
+}
+
+static void ev_block_with (int i, char *spec)
+{
+  pthread_t th; char *bs, *save1 = NULL; int started = 0, k;
+  nbw = 0;
+  if (sconn && dbus_connection_get_is_connected (sconn) && dbus_connection_get_unix_fd (sconn, &bw_fd))
+    for (bs = strtok_r (spec, "/", &save1); bs && nbw < MAXBATCH; bs = strtok_r (NULL, "/", &save1))
+      {
+        char *it, *save2 = NULL;
+        bw[nbw].buf = NULL; bw[nbw].len = 0;
+        for (it = strtok_r (bs, "+", &save2); it; it = strtok_r (NULL, "+", &save2)) batch_add (&bw[nbw], it);
+        nbw++;
+      }
+  if (nbw > 0 && pthread_create (&th, NULL, bw_thread, NULL) == 0) started = 1;
+  if (i < ncalls) dbus_pending_call_block (calls[i].p);
+  if (started) pthread_join (th, NULL);
+  for (k = 0; k < nbw; k++) free (bw[k].buf);
+  nbw = 0;
+}
+
 static int argi (const char *s) { return atoi (s); }
 
 static void run_event (char *ev)
@@ -275,7 +345,9 @@ static void run_event (char *ev)
     case 'W': if (read_watch && dbus_watch_get_enabled (read_watch)) { dbus_watch_handle (read_watch, DBUS_WATCH_READABLE); emit ("w"); } else emit ("w-"); break;
     case 'F': { int i = argi (f[1]); if (i < ncalls && calls[i].registered && calls[i].to) { dbus_timeout_handle (calls[i].to); emit ("F"); } else emit ("F-"); break; }
     case 'C': { int i = argi (f[1]); if (i < ncalls) dbus_pending_call_cancel (calls[i].p); break; }
-    case 'B': { int i = argi (f[1]); if (i < ncalls) dbus_pending_call_block (calls[i].p); break; }
+    case 'B':
+      if (f[0][1] == 'W') { if (nf >= 3) ev_block_with (argi (f[1]), f[2]); break; }
+      { int i = argi (f[1]); if (i < ncalls) dbus_pending_call_block (calls[i].p); break; }
     case 'D': { DBusDispatchStatus s = dbus_connection_dispatch (client); emit ("d%d", (int) s); break; }
     case 'T':
       {
